@@ -81,7 +81,7 @@ TECHNIQUE = ("Lean 4 proof over model with GEOS as a parameter under explicit co
              "from source; differential correspondence over all 81 type pairs, bit-exact against a binary64 evaluation of "
              "the model; property monitor on real outputs, also along histories of calls on reused objects and over call styles / "
              "construction paths resolved by the modelled argument binding")
-RULE = ("histories (affinity_history): 120 / 1200 sequences of 3-5 calls in one process - a pair, neighbours of it (other buffers, "
+RULE = ("histories (affinity_history): 120 / 600 sequences of 3-5 calls in one process - a pair, neighbours of it (other buffers, "
         "the declared defaults passed and omitted, one or both geometries moved in time, the pair swapped, a geometry against "
         "itself), the pair again; half of the neighbour steps reuse the live geometry objects of the step before: coordinates "
         "re-assigned, model_copy(update=...) shallow / deep, copy.copy / deepcopy + assignment, the same objects with other "
@@ -93,7 +93,7 @@ RULE = ("histories (affinity_history): 120 / 1200 sequences of 3-5 calls in one 
         "buffers as float / int / numpy float64 / float32 / int64 / bool, resolved by the model's argument binding on the "
         "signature extracted by introspection (C06_bind_wellformed).  near-identical pairs (every vertex, or some, moved by one "
         "ulp / 1e-12 relative / a unit round trip x*1000/1000, x/1000*1000, x/3*3) of all nine types incl. buffered lines / points: "
-        "full monitor on 4 / 40 rounds, the range clause alone (affinity_range) on 35 / 500 rounds.  touching / overlapping / "
+        "full monitor on 4 / 24 rounds, the range clause alone (affinity_range) on 35 / 300 rounds.  touching / overlapping / "
         "missing extents by one ulp ... 2^-20 at magnitudes 1 ... 2^20 s and up to MAX_FREQUENCY, the clamp of a buffered time "
         "stamp at 0, extents of one ulp; geometries with 17 / 257 / 1025 vertices or parts; the product time buffer x frequency "
         "buffer x ordered type pair on fixed samples (a line with a bend at its latest time, holes, singleton multi-geometries).  "
@@ -627,7 +627,8 @@ def _holds_pair(ctx, inp, io):
         return None
     x, y = frac(a12), frac(a21)
     if not v["range"]:
-        return f"range: compute_affinity = {float(x)!r} is outside [0, 1]"
+        bad = x if not 0 <= x <= 1 else y
+        return f"range: compute_affinity = {float(bad)!r} is outside [0, 1]"
     if not v["disjoint"]:
         return f"disjoint: prepared geometries do not overlap in time but the affinity is {float(x)!r}"
     area = info["branch"] == "area"
@@ -1463,17 +1464,14 @@ NEAR_KINDS = ["ulp", "ulp_some", "rt1000", "rt3", "rt_mixed"]
 
 
 def _wf(gj):
-    """the part of validation a perturbation / rounding could break: ordered interval / box, distinct line ends"""
-    ty, c = gj["type"], gj["coordinates"]
-    if ty == "TimeInterval":
-        return frac(c[0]) <= frac(c[1])
-    if ty == "BoundingBox":
-        return frac(c[0]) <= frac(c[2]) and frac(c[1]) <= frac(c[3]) and frac(c[3]) <= gen_geom.MAXF
-    if ty == "LineString":
-        return len({jkey(p) for p in c}) >= 2
-    if ty == "MultiLineString":
-        return all(len({jkey(p) for p in line}) >= 2 for line in c)
-    return True
+    """inside the quantifier: the library's own validation accepts the geometry as it is (a perturbed or rounded copy
+    can lose that: an interval or box out of order, a line of a MultiLineString that no longer starts before it ends,
+    a LineString that validation would turn around)"""
+    try:
+        obj = gen_geom.to_data(gj)
+    except Exception:  # noqa: BLE001
+        return False
+    return _same_content(obj, gj)
 
 
 def _pow2(k):
@@ -1752,9 +1750,9 @@ def _corpus(ctx):
 
 
 def _near_identical(ctx):
-    _run_pairs(ctx, list(_near_identical_cases(ctx.rng, ctx.budget(4, 40))))
+    _run_pairs(ctx, list(_near_identical_cases(ctx.rng, ctx.budget(4, 24))))
     # ... and the range clause alone on many more pairs that go through GEOS (a ratio above 1 shows on a few per cent)
-    ctx.run_cases(OPS["affinity_range"], list(_near_identical_cases(ctx.rng, ctx.budget(35, 500), GEOS_NEAR, NEAR_KINDS)))
+    ctx.run_cases(OPS["affinity_range"], list(_near_identical_cases(ctx.rng, ctx.budget(35, 300), GEOS_NEAR, NEAR_KINDS)))
 
 
 def _boundaries(ctx):
@@ -1767,7 +1765,7 @@ def _boundaries(ctx):
 
 
 def _calls(ctx):
-    cases = list(_call_cases(ctx.rng, ctx.budget(3, 12)))
+    cases = list(_call_cases(ctx.rng, ctx.budget(3, 8)))
     for c in cases:
         ctx.tally("call style:" + c["style"])
         for b in c["build"]:
@@ -1778,7 +1776,7 @@ def _calls(ctx):
 
 
 def _histories(ctx):
-    ctx.run_cases(OPS["affinity_history"], _history_cases(ctx, ctx.budget(120, 1200)))
+    ctx.run_cases(OPS["affinity_history"], _history_cases(ctx, ctx.budget(120, 600)))
 
 
 def _bounds_contract(ctx):
